@@ -12,7 +12,7 @@ var opKindsModel = []string{
 	"add", "add", "add", "add", "replace", "replace", "addI", "replaceI", "replaceI",
 	"remove", "remove", "removeI", "removeI", "removeI", "removeAbsent",
 	"get", "getI", "getAbsent", "clear", "clone", "clone", "switch", "switch",
-	"inorder", "after", "afterI", "afterI", "afterAbsent", "afterAbsent",
+	"inorder", "after", "afterI", "afterI", "afterAbsent", "afterAbsent", "cursor", "cursorI", "cursorI",
 	"asc", "asc", "desc", "desc", "zig", "zig", "drain", "drain", "rm2", "rm2", "rm2", "bulkremove",
 }
 
@@ -38,7 +38,7 @@ func genOp(kinds []string) *rapid.Generator[Op] {
 			op.A = rapid.IntRange(0, 400).Draw(t, "a")
 		}
 		switch k {
-		case "after", "afterI", "afterAbsent", "drain", "deep":
+		case "after", "afterI", "afterAbsent", "drain", "deep", "cursor", "cursorI":
 			op.B = rapid.IntRange(0, 400).Draw(t, "b")
 		}
 		return op
